@@ -37,6 +37,11 @@ type Program struct {
 	cg      *CallGraph
 	// Renamed lists functions that were mapped back to their reference names.
 	Renamed []string
+	// RenamedObjs lists fields, types, variables and constants mapped back to
+	// their reference names; OrigName is the spelling found in the file for
+	// every identifier rewritten on that account.
+	RenamedObjs []string
+	OrigName    map[*ast.Ident]string
 }
 
 // CurrentProgram is the program loaded last (name canonicalisation hook for
@@ -135,14 +140,36 @@ func Load(repo, goos, goarch string) (*Program, error) {
 	if len(p.Pkgs) == 0 {
 		return nil, fmt.Errorf("no packages loaded from %s", repo)
 	}
-	if err := p.findGenerated(); err != nil {
+	if err := p.index(); err != nil {
 		return nil, err
+	}
+	if ren := p.objectRenames(); len(ren) > 0 {
+		if err := p.applyRenames(ren); err != nil {
+			return nil, err
+		}
+		if err := p.index(); err != nil {
+			return nil, err
+		}
+	}
+	CurrentProgram = p
+	return p, nil
+}
+
+// index (re)builds the function tables from the packages' syntax and types.
+func (p *Program) index() error {
+	p.Funcs, p.Renamed, p.cg = nil, nil, nil
+	p.byObj = map[*types.Func]*Func{}
+	p.byName = map[string]*Func{}
+	p.byLit = map[*ast.FuncLit]*Func{}
+	p.Gen = map[string]*GenFile{}
+	p.parents = map[ast.Node]ast.Node{}
+	if err := p.findGenerated(); err != nil {
+		return err
 	}
 	p.collectFuncs()
 	p.canonicaliseNames()
 	p.collectAllLits()
-	CurrentProgram = p
-	return p, nil
+	return nil
 }
 
 // findGenerated finds `//go:generate goyacc ... -o X.go X.go.y` directives.
@@ -389,8 +416,15 @@ func (p *Program) Units() map[string]interface{} {
 		}
 	}
 	sort.Strings(fl)
-	return map[string]interface{}{
+	u := map[string]interface{}{
 		"config": p.GOOS + "/" + p.GOARCH, "packages": p.Order, "files": fl, "n_files": files,
 		"functions": funcs, "func_literals": lits, "generated_functions": gen,
 	}
+	if len(p.Renamed) > 0 {
+		u["functions_mapped_to_reference_names"] = p.Renamed
+	}
+	if len(p.RenamedObjs) > 0 {
+		u["objects_mapped_to_reference_names"] = p.RenamedObjs
+	}
+	return u
 }
